@@ -99,7 +99,8 @@ class C09(XsProp):
             cs.append(self.case([rcell(b)], '>int'))
             cs.append(self.case([rcell(b)], 'round'))
         # type pairings
-        classes = ['N', 'T', 'I5', 'R3ff8000000000000', 'S61', 'B1010', 'V(I1)', 'M(I1=I2)', 'G(I7,M(S6b=I1))', 'G(S61,M(S6b=I1))']
+        classes = ['N', 'T', 'I5', 'R3ff8000000000000', 'S61', 'B1010', 'V(I1)', 'M(I1=I2)', 'G(I7,M(S6b=I1))', 'G(S61,M(S6b=I1))', 'G(I0,M(S6b=I1))',
+                   'G(R0000000000000000,M(S6b=I1))', 'I0', 'R0000000000000000']
         for w in BIN_INT + ['bsl', 'and', 'or', 'xor']:
             for a in classes:
                 for b in classes:
